@@ -99,6 +99,18 @@ def check(ctx):
     for loc, lst in acc_stop.items():
         if any(k in ('write', 'rmw') for _, _, k in lst) and loc.startswith('engine::Search::'):
             flags.add(loc)
+    if len(flags) > 1:
+        # stop_command writes several Search fields: the flag is the one that is stored `true`; the others are ordinary shared
+        # data and fall under R1 (race) like any other location both threads touch
+        cand = set()
+        for loc in flags:
+            for f, n, k in acc_stop[loc]:
+                if k == 'write':
+                    v = written_value(f, n)
+                    if v is not None and const_of(strip_conv(v)) == 1:
+                        cand.add(loc)
+        if len(cand) == 1:
+            flags = cand
     if len(flags) != 1:
         raise AnalysisBroken('stop flag slot: expected exactly one Search field written from '
                              'stop_command, found %s' % sorted(flags))
